@@ -16,7 +16,7 @@ package types
 
 //@ func Equals
 //@   props C17 C01 C05 C07 C16
-//@   modifies allmaps(util.PtrPtrSet), allmaps(util.PtrSet)
+//@   modifies
 //@   requires wfT(x) && wfT(y)
 //@   nopanic
 //@   ensures #spec result == tyEq(x, y)
@@ -29,7 +29,7 @@ package types
 //@   unfold wfT(x)
 //@   unfold wfT(y)
 //@   nopanic
-//@   modifies inProcess[*], allmaps(inProcess[0])
+//@   modifies inProcess[*]
 //@   ensures #spec result == tyEq(x, y)
 //@   ensures #memo result ==> forall(p, forall(q, inPP(inProcess, p, q) ==> old(inPP(inProcess, p, q)) || tyEq(p, q)))
 //@   ensures #mono forall(p, forall(q, old(inPP(inProcess, p, q)) ==> inPP(inProcess, p, q)))
@@ -40,7 +40,7 @@ package types
 //@   requires wfSeq(x.Val, x.Ty()) && wfSeq(y.Val, y.Ty())
 //@   requires #memo forall(p, forall(q, inPP(inProcess, p, q) ==> tyEq(p, q) || notyounger(x.Ty(), p)))
 //@   nopanic
-//@   modifies inProcess[*], allmaps(inProcess[0])
+//@   modifies inProcess[*]
 //@   loop 1 invariant forall(k, 0, rangeindex+1, tyEq(x.Val[k], y.Val[k])) && len(x.Val) == len(y.Val) && xt == x && yt == y
 //@   loop 1 invariant forall(p, forall(q, inPP(inProcess, p, q) ==> old(inPP(inProcess, p, q)) || tyEq(p, q)))
 //@   loop 1 invariant forall(p, forall(q, old(inPP(inProcess, p, q)) ==> inPP(inProcess, p, q)))
@@ -54,7 +54,7 @@ package types
 //@   requires wfSeq(x.Param, x.Ty()) && wfSeq(y.Param, y.Ty()) && wfT(x.Return) && wfT(y.Return) && older(x.Return, x.Ty())
 //@   requires #memo forall(p, forall(q, inPP(inProcess, p, q) ==> tyEq(p, q) || notyounger(x.Ty(), p)))
 //@   nopanic
-//@   modifies inProcess[*], allmaps(inProcess[0])
+//@   modifies inProcess[*]
 //@   loop 1 invariant forall(k, 0, rangeindex+1, tyEq(x.Param[k], y.Param[k])) && len(x.Param) == len(y.Param)
 //@   loop 1 invariant forall(p, forall(q, inPP(inProcess, p, q) ==> old(inPP(inProcess, p, q)) || tyEq(p, q)))
 //@   loop 1 invariant forall(p, forall(q, old(inPP(inProcess, p, q)) ==> inPP(inProcess, p, q)))
@@ -70,7 +70,7 @@ package types
 //@   requires forall(i, 0, len(y.Fields), wfT(y.Fields[i].Val))
 //@   requires #memo forall(p, forall(q, inPP(inProcess, p, q) ==> tyEq(p, q) || notyounger(x.Ty(), p)))
 //@   nopanic
-//@   modifies inProcess[*], allmaps(inProcess[0])
+//@   modifies inProcess[*]
 //@   loop 1 invariant len(x.Fields) == len(y.Fields)
 //@   loop 1 invariant forall(k, 0, rangeindex+1, exists(j, 0, len(y.Fields), y.Fields[j].Name == x.Fields[k].Name && tyEq(x.Fields[k].Val, y.Fields[j].Val)))
 //@   loop 1 invariant forall(p, forall(q, inPP(inProcess, p, q) ==> old(inPP(inProcess, p, q)) || tyEq(p, q)))
@@ -127,7 +127,7 @@ package types
 //@   requires wfT(x) && wfT(y) && wfSubst(m) && inProcess != nil
 //@   unfold wfT(x)
 //@   unfold wfT(y)
-//@   modifies m[*], allmaps(util.PtrPtrSet), allmaps(util.PtrSet)
+//@   modifies m[*], inProcess[*]
 //@   at mapupdate m: assert #occurs-check !occurs(key, value)
 //@   at mapupdate m: assert #single-binding mapHas(m, key) ==> tyEq(mapGet(m, key), value)
 //@   at mapupdate m: assert #wf wfT(value)
@@ -139,10 +139,22 @@ package types
 //@   requires wfT(x) && wfT(y) && wfSubst(m) && inProcess != nil && x.Kind == y.Kind && x.Kind > kCompositeBegin
 //@   unfold wfT(x)
 //@   unfold wfT(y)
-//@   modifies m[*], allmaps(util.PtrPtrSet), allmaps(util.PtrSet)
+//@   modifies m[*], inProcess[*]
 //@   loop 1 invariant wfSubst(m) && len(ks) == len(xtv) && len(xtv) == len(ytv) && isfresh(ks) && forall(j, 0, rangeindex+1, wfT(ks[j]) && allocated(ks[j]))
 //@   loop 2 invariant wfSubst(m) && len(fs) == len(xfs) && isfresh(fs) && forall(j, 0, rangeindex+1, wfT(fs[j].Val) && allocated(fs[j].Val) && fs[j].Name == xfs[j].Name)
 //@   loop 3 invariant wfSubst(m) && len(params) == len(xf.Param) && len(xf.Param) == len(yf.Param) && isfresh(params) && forall(j, 0, rangeindex+1, wfT(params[j]) && allocated(params[j]))
 //@   unfold @return wfT(result)
 //@   ensures #subst wfSubst(m)
 //@   ensures #result result != nil ==> wfT(result)
+
+// slotFree decides whether an instantiated signature is fully concrete (C05)
+//@ func slotFree
+//@   props C05 C17
+//@   requires wfT(ty)
+//@   unfold wfT(ty)
+//@   unfold ground(ty)
+//@   modifies
+//@   loop 1 invariant forall(j, 0, rangeindex+1, ground(ty.Tuple().Val[j]))
+//@   loop 2 invariant forall(j, 0, rangeindex+1, ground(ty.Obj().Fields[j].Val))
+//@   loop 3 invariant forall(j, 0, rangeindex+1, ground(ty.Fun().Param[j]))
+//@   ensures #ground result == ground(ty)
